@@ -58,6 +58,20 @@ class GenericDT(BaseDT):
         self.generic_type = generic_type
 
 
+class HookDT(BaseDT):
+    __module__ = "c09_standins"
+    """an engine data type that owns a parametrised-dtype hook (polars DateTime, pandas DatetimeTZ ..., pyspark Decimal)"""
+
+    @classmethod
+    def from_parametrized_dtype(cls, native: "Native"):
+        return cls()
+
+
+class InheritsHookDT(HookDT):
+    __module__ = "c09_standins"
+    """a user subclass of such a type that does NOT redefine the hook (it only overrides coerce, say)"""
+
+
 class Native:
     __module__ = "c09_standins"  # program-side classes: instantiated by the interpreter, not run as theory code
     """a native dtype object (np.dtype('int64'), pd.Int64Dtype(), pl.Int64, pst.LongType()): not a pandera type,
@@ -235,12 +249,21 @@ class RegisterDtype(Contract):
 
     target = f"{E}.register_dtype"
     raises = (ValueError,)
-    split = {"what": ["class", "decorator", "not_a_class"]}
+    split = {"what": ["class", "decorator", "not_a_class"], "hook": ["none", "own", "inherited"]}
     params = dict(cls=T.Any)
-    opaque = (f"{E}._register_from_parametrized_dtype",)
 
     def setup(self, I):
         DL.install(I)
+
+        def register_hook(I_, eng, dtype_cls):
+            # Engine._register_from_parametrized_dtype has its own contract (RegisterFromParametrizedDtype); here: recorded
+            cur().ghost.setdefault("hook_registrations", []).append(dtype_cls)
+            return None
+
+        I.models[id(ENG.Engine._register_from_parametrized_dtype)] = register_hook
+
+    def _subject(self):
+        return {"none": SubDT, "own": HookDT, "inherited": InheritsHookDT}[self.fixed.get("hook", "none")]
 
     def make_args(self):
         eng = T.Ref(ENG.Engine, _base_pandera_dtypes=T.Const((BaseDT,)), __name__=T.Const("AnEngine"), _registered_dtypes=T.Const(set())).fresh("cls")
@@ -258,12 +281,13 @@ class RegisterDtype(Contract):
 
     def call_target(self, I, fn, a):
         what = self.fixed.get("what", "class")
+        C = self._subject()
         if what == "class":
-            return I.call(fn, [a["cls"], SubDT], {"equivalents": list(self._keys)})
+            return I.call(fn, [a["cls"], C], {"equivalents": list(self._keys)})
         if what == "decorator":
             deco = I.call(fn, [a["cls"]], {"equivalents": list(self._keys)})
-            return I.call(deco, [SubDT], {})
-        return I.call(fn, [a["cls"], Obj(SubDT, "an_instance", pre=True)], {"equivalents": list(self._keys)})
+            return I.call(deco, [C], {})
+        return I.call(fn, [a["cls"], Obj(C, "an_instance", pre=True)], {"equivalents": list(self._keys)})
 
     def modifies(self, cls):
         return [("container", id(self._table))]
@@ -271,14 +295,83 @@ class RegisterDtype(Contract):
     def ensures(self, result, old, cls):
         if self.fixed.get("what") == "not_a_class":
             return {"only_classes_can_be_registered": False}
+        C = self._subject()
         t = self._table
         vals = [dict.get(t, k) for k in self._keys]
-        return {"returns_the_class_unchanged": result is SubDT,
-                "class_recorded_as_registered": SubDT in fld(cls, "_registered_dtypes"),
-                "equivalents_registered_to_one_instance_of_the_class": all(isinstance(v, Obj) and v.cls is SubDT and v is vals[0] for v in vals)}
+        hooks = cur().ghost.get("hook_registrations", [])
+        out = {"returns_the_class_unchanged": result is C,
+               "class_recorded_as_registered": C in fld(cls, "_registered_dtypes"),
+               "equivalents_registered_to_one_instance_of_the_class": all(isinstance(v, Obj) and v.cls is C and v is vals[0] for v in vals)}
+        # "The classmethod from_parametrized_dtype will also be registered": the hook of the class being registered - a class that
+        # merely inherits one must leave the parametrised native types with the class that defines the hook (registering a subclass
+        # never changes what the engine resolves existing spellings to)
+        if self.fixed.get("hook", "none") == "own":
+            out["own_parametrized_hook_registered_once_for_the_class"] = hooks == [C]
+        else:
+            out["no_hook_registered_for_a_class_that_defines_none"] = hooks == []
+        return out
 
     def on_raise(self, exc, old, cls):
-        return {"refused_only_for_non_classes": self.fixed.get("what") == "not_a_class", "nothing_registered": len(self._table) == 0}
+        return {"refused_only_for_non_classes": self.fixed.get("what") == "not_a_class", "nothing_registered": len(self._table) == 0 and not cur().ghost.get("hook_registrations")}
 
 
-CONTRACTS = [EngineDtype, RegisterEquivalents, RegisterDtype]
+class RegisterFromParametrizedDtype(Contract):
+    """Engine._register_from_parametrized_dtype(C): the hook DEFINED BY C is registered in the engine's dispatch table for every
+    native type named by the hook's first annotation, and what is registered builds instances through C."""
+
+    target = f"{E}._register_from_parametrized_dtype"
+    raises = (ValueError, KeyError)
+    split = {"hook": ["own", "inherited", "not_a_classmethod"]}
+    params = dict(cls=T.Any)
+
+    def setup(self, I):
+        DL.install(I)
+        I.models[id(typing.get_type_hints)] = lambda I_, f, *a, **k: typing.get_type_hints(f, {**vars(__import__(__name__, fromlist=["x"]))})
+        import typing_inspect
+
+        I.models[id(typing_inspect.get_args)] = lambda I_, t, *a, **k: typing_inspect.get_args(t)
+
+    def make_args(self):
+        disp = T.Ref(None, register=T.Callback(T.Any, raises=False)).fresh("dispatch")
+        eng = T.Ref(ENG.Engine, _base_pandera_dtypes=T.Const((BaseDT,)), __name__=T.Const("AnEngine")).fresh("cls")
+        reg = T.Ref(ENG._DtypeRegistry, equivalents=T.Any, dispatch=T.Const(disp)).fresh("registry")
+        outer = DictObj({eng: reg})
+        outer.pre = True
+        eng.attrs["_registry"] = outer
+        eng.attrs0["_registry"] = outer
+        cur().ghost["dispatch"] = disp
+        return {"cls": eng}
+
+    def _subject(self):
+        return {"own": HookDT, "inherited": InheritsHookDT, "not_a_classmethod": PlainHookDT}[self.fixed.get("hook", "own")]
+
+    def call_target(self, I, fn, a):
+        return I.call(fn, [a["cls"], self._subject()], {})
+
+    def ensures(self, result, old, cls):
+        reg = fld0(cur().ghost["dispatch"], "register").calls
+        how = self.fixed.get("hook", "own")
+        if how != "own":
+            return {"only_a_class_that_defines_the_hook_as_classmethod_is_accepted": False}
+        out = {"registered_for_each_annotated_native_type": [c[0][0] for c in reg] == [Native]}
+        if len(reg) == 1:
+            I = cur().ghost["interp"]
+            made = I.call(reg[0][0][1], [Obj(Native, "a_native", pre=True)], {})
+            out["registered_constructor_builds_the_class_itself"] = type(made) is HookDT or (isinstance(made, Obj) and made.cls is HookDT)
+        return out
+
+    def on_raise(self, exc, old, cls):
+        how = self.fixed.get("hook", "own")
+        reg = fld0(cur().ghost["dispatch"], "register").calls
+        return {"refused_only_without_an_own_classmethod_hook": how != "own", "nothing_registered_when_refused": reg == []}
+
+
+class PlainHookDT(BaseDT):
+    __module__ = "c09_standins"
+    """defines the hook, but as a plain function"""
+
+    def from_parametrized_dtype(cls, native: "Native"):  # noqa: N805
+        return cls()
+
+
+CONTRACTS = [EngineDtype, RegisterEquivalents, RegisterDtype, RegisterFromParametrizedDtype]
